@@ -461,7 +461,7 @@ def run(ctx):
         merge_and_judge(u, d, tag)
     for u, d in [([], {}), ({}, None), (None, None), ({"a": 1}, 3), ("x", {"a": 1})]:
         add_merge(u, d, "non-dict-argument")
-    n_rand = 2000 if thorough else 110
+    n_rand = 10000 if thorough else 110
     for i in range(n_rand):
         depth = rng.choice([1, 2, 3, 4, 4])
         d = rtree(rng, depth)
@@ -568,7 +568,7 @@ def run(ctx):
     add_apply({"qha": {}, "elast": {}, "output": {"pressure_base": {"cij": True}}}, "dict-over-leaf-valid-config (former D11 witness)")
     add_apply({"qha": {"settings": {"static_only": {"x": 1}}}, "elast": {}}, "dict-over-leaf-valid-config (former D11 witness)")
     add_apply({"qha": 5, "elast": None}, "leaf-over-dict")
-    for i in range(300 if thorough else 30):
+    for i in range(1500 if thorough else 30):
         if i % 3 == 2:
             u = rtree(rng, 3)
             tag = "random-tree"
